@@ -163,9 +163,54 @@ def opaque_atoms(p):
 
 
 def top_atoms(p):
-    """Opaque building blocks of a side.  Series atoms are excluded: two different table entries are different
-    functions (their formulas are compared as rational functions in seriesform), so they count as indeterminates."""
     return {a for a in p.atoms() if a.kind not in ("sym", "series")}
+
+
+MATRIX_FAMILIES = {"inv": 3, "solve": 4, "qrR": 4, "qrQ": 4, "sqrt_cov_pred": 3}
+
+
+def generator(a):
+    """Family of an opaque atom: atoms of one family with the same arguments are the 'same building block'.
+    sin/cos/tan of one argument are one family (tan is rewritten, sin^2 + cos^2 = 1 is applied); the cells of one
+    matrix factor (inverse, QR, solve) are one family."""
+    k = a.kind
+    if k in ("sin", "cos", "tan"):
+        return ("trig", a.key[0])
+    if k in MATRIX_FAMILIES:
+        return (k, a.key[MATRIX_FAMILIES[k] - 1:] if k != "inv" else a.key[2:])
+    if k == "ind":
+        return ("cond", a.key[0])
+    if k == "ite":
+        return ("ite", a.key)
+    return (k, a.key)
+
+
+def generators(p):
+    """Generators reachable from p: top-level atoms and, through trig/sqrt/recip arguments, nothing deeper (the
+    arguments are part of the generator's identity)."""
+    return {generator(a) for a in p.atoms() if a.kind not in ("sym", "series")}
+
+
+def _rewrite_tan(a, b):
+    """tan(u) -> sin(u)/cos(u) when sin(u) or cos(u) occurs on either side (keeps one trig family per argument canonical)."""
+    from .poly import deep_subs
+    args = set()
+    tans = set()
+    for x in (a, b):
+        for at in all_atoms(x):
+            if at.kind in ("sin", "cos"):
+                args.add(at.key[0])
+            elif at.kind == "tan":
+                tans.add(at.key[0])
+    hit = tans & args
+    if not hit:
+        return a, b, False
+
+    def f(at):
+        if at.kind == "tan" and at.key[0] in hit:
+            return Poly.atom(Atom("sin", (at.key[0],))) * Poly.atom(Atom("cos", (at.key[0],))).recip()
+        return None
+    return deep_subs(a, f), deep_subs(b, f), True
 
 
 _CANON_MEMO = {}
@@ -294,6 +339,11 @@ def _decide(p, q, quats):
         a, b = normal(a2, quats), normal(b2, quats)
         if a == b:
             return EQUAL
+    a2, b2, changed = _rewrite_tan(a, b)
+    if changed:
+        a, b = normal(a2, quats), normal(b2, quats)
+        if a == b:
+            return EQUAL
     a0, b0 = a, b
     # clear denominators
     depth = 0
@@ -310,7 +360,7 @@ def _decide(p, q, quats):
         a, b = l, r
         if not any(x.kind == "recip" or e < 0 for m in list(a.t) + list(b.t) for x, e in m):
             break
-    # second stage: linearise selections through indicators (bounded: only a handful of if_else atoms)
+    # second stage: linearise selections through indicators (bounded by a work budget)
     n_ite = len({x for y in (a0, b0) for x in all_atoms(y) if x.kind == "ite"})
     if 0 < n_ite <= 8:
         from .poly import WorkExceeded
@@ -323,8 +373,11 @@ def _decide(p, q, quats):
             ln_, ld_ = split_rational(la)
             rn_, rd_ = split_rational(lb)
             if ld_.const_value() != 1 or rd_.const_value() != 1:
-                if normal(ln_ * rd_, quats, True) == normal(rn_ * ld_, quats, True):
+                la, lb = normal(ln_ * rd_, quats, True), normal(rn_ * ld_, quats, True)
+                if la == lb:
                     return EQUAL
+            if not any(x.kind == "ite" for y in (la, lb) for x in y.atoms()):
+                a, b = la, lb          # the linearised forms are the most canonical ones: judge on them
         except WorkExceeded:
             pass
         finally:
@@ -334,9 +387,9 @@ def _decide(p, q, quats):
     d = a - b
     if d.is_zero():
         return EQUAL
-    # same building blocks on both sides?  (opaque atoms reachable from either side)
-    oa, ob = top_atoms(a), top_atoms(b)
-    if oa == ob or not (oa or ob):
+    # same building blocks on both sides?
+    ga, gb = generators(a), generators(b)
+    if ga == gb:
         return DIFFERENT
     return UNKNOWN
 
